@@ -1339,14 +1339,29 @@ def case_gauge(ctx, seed, coq_out=None):
                 axes = [outs.index(f"k{i}") for i in where]
                 Gt = G.reshape(ds + ds)
                 cur = np.moveaxis(np.tensordot(Gt, cur, axes=(list(range(len(ds), 2 * len(ds))), axes)), list(range(len(ds))), axes)
+                # un-gauging multiplies the null directions of a rank-deficient outside message by ~1e12 (default smudge):
+                # the gated STATE is still right (checked below), but its tensors are then so badly scaled that any
+                # later floating-point contraction of them (BP included) is meaningless - outside the numerical domain
+                tid = tids_of(bp.tn)
+                env_ok = True
+                if len(where) == 2:
+                    for i in where:
+                        for ix in tens[i]:
+                            if ix not in outs and not all(ix in tens[j] for j in where):
+                                sp = sqrt_spectrum(np.asarray(bp.messages[ix, tid[i]]), 1e-12, 1.0)
+                                env_ok = env_ok and bool(sp.min() > 1e-4 * sp.max())
                 bp.gate_(G, tuple(where), max_bond=None, cutoff=0.0)
                 two = ":two_site" if len(where) == 2 else ":one_site"
                 cmax = float(np.abs(cur).max())
-                if not np.allclose(dense_of(bp.tn, outs), cur, rtol=1e-7, atol=1e-7 * cmax):
+                rt = 1e-7 if env_ok else 1e-4  # rank-deficient environment: see above (errors of the split are blown up by 1e12)
+                if not np.allclose(dense_of(bp.tn, outs), cur, rtol=rt, atol=rt * cmax):
                     ctx.violation("d2bp:gate_:state" + two + cplx, f"bp.gate_(G, {where}) without truncation is not the exactly gated "
                                   f"state (max deviation {float(np.abs(dense_of(bp.tn, outs) - cur).max()):.2e} of {cmax:.2e})",
                                   {**desc, "gate_number": rep})
                     return
+                if not env_ok:
+                    ctx.bump("gauge_gate_rank_deficient_environment")
+                    break
                 if len(where) == 2:
                     # probe the two messages gate_ has written: gauge each gated site on its own with the CURRENT messages
                     tid = tids_of(bp.tn)
